@@ -49,6 +49,18 @@ CHECKS = {
  "C14": ("exploration", "runtime monitoring: differential test against a slice model, linearizability checking of recorded concurrent histories with porcupine, race detector + conservation/order checks under stress",
          "Sequential results exact on all generated sequences with every head position at growth constructed; thousands of short concurrent histories linearizable w.r.t. a FIFO model (porcupine Ok); stress runs race-free and conserving.",
          "porcupine timeouts are counted as unknown (run inconclusive above 5%); New(0)/PopN(<=0) out of scope", "DESIGN.md §4 C14"),
+ "C15": ("exploration", "runtime monitoring: the real streamWriter.Invoke and streamReader.Receive driven with capturing/feeding fake streams over the marshalled bytes, recording Processers in the receiving registry; plus the same traffic end-to-end over loopback TCP in a private network namespace",
+         "Every generated batch (mixed targets, senders incl. none/equal/split-ambiguous, five payload types, unserialisable items at PRNG positions) was delivered as the input list minus the unserialisable items, in order, with payload and sender intact; no panic; the node survived.",
+         "internal mode depends on a verif-only export file in package remote (falls back to end-to-end only if it no longer compiles)", "DESIGN.md §4 C15"),
+ "C16": ("exploration", "runtime monitoring with hostile-input generation: structured malformed envelopes and mutated/random byte strings through the real decoder and streamReader.Receive (panic = violation, deliveries checked against the envelope's own valid indices); a hostile dRPC client and raw TCP garbage against a live node in a child process, then liveness probes",
+         "No panic and no misdirected delivery on any of the generated envelopes / byte strings; after each batch of hostile inputs over TCP (also addressed to the node's internal stream writer) the node still received and sent.",
+         "'all byte strings' is sampled; an invalid sender index may mean 'no sender' or 'reject'", "DESIGN.md §4 C16"),
+ "C18": ("exploration", "runtime monitoring: reference-model comparison (set model of the membership) of Members(), HasKind() and the join/leave event log after every snapshot pushed to a real cluster agent",
+         "Exact agreement with the set model after every snapshot of every generated history (growing, shrinking, repeated, duplicate entries).",
+         "member kind sets fixed per history; FIFO barrier instead of sleeps", "DESIGN.md §4 C18"),
+ "C19": ("exploration", "runtime monitoring: quiescent histories of a multi-node cluster of real Cluster objects over an in-memory Remoter (real ProtoSerializer round trip, PRNG delivery order), compared on every node with a sequential reference model of the cluster; producer-run counters per node",
+         "After every operation of every generated history all nodes agreed with the model (activation placement by the select function, uniqueness, propagation, topology transfer to joiners, deactivation, purge on leave).",
+         "in-memory network instead of TCP; concurrent conflicting activations out of scope", "DESIGN.md §4 C19"),
 }
 PENDING = "check under construction in this session; not claimed until it is built and silent on the unchanged tree"
 RACE = {"C01","C02","C03","C10","C14"}
